@@ -503,4 +503,139 @@ theorem wf_run (s : St) (hs : s.pit = []) (ops : List Op) : WF (run s ops) := by
   | nil => exact h0
   | cons op t ih => simp only [List.foldl_cons]; exact ih _ (wf_step h0 op)
 
+/-! ### exactness of Data delivery -/
+
+theorem prefixes_pairwise (n : Name) (m : Nat) (hm : m ≤ n.length) :
+    List.Pairwise (fun a b : Name => a.length ≠ b.length) ((List.range (m + 1)).reverse.map n.take) ∧
+    ∀ a ∈ (List.range (m + 1)).reverse.map n.take, a.length ≤ m := by
+  induction m with
+  | zero => simp
+  | succ k ih =>
+    obtain ⟨ih1, ih2⟩ := ih (by omega)
+    rw [List.range_succ, List.reverse_append]
+    simp only [List.reverse_cons, List.reverse_nil, List.nil_append, List.singleton_append, List.map_cons,
+      List.pairwise_cons]
+    refine ⟨⟨?_, ih1⟩, ?_⟩
+    · intro a ha
+      have := ih2 a ha
+      simp only [List.length_take]
+      omega
+    · intro a ha
+      simp only [List.mem_cons] at ha
+      rcases ha with rfl | ha
+      · simp only [List.length_take]; omega
+      · have := ih2 a ha; omega
+
+theorem matchByName_nodup {pit : List Entry} (h : pit.Nodup) (n : Name) : (matchByName pit n).Nodup := by
+  unfold matchByName
+  rw [List.Nodup, List.pairwise_flatMap]
+  constructor
+  · intro p _
+    exact List.Pairwise.filter _ h
+  · have := (prefixes_pairwise n n.length (Nat.le_refl _)).1
+    unfold prefixesDesc
+    refine List.Pairwise.imp ?_ this
+    intro a b hab x hx y hy hxy
+    simp only [List.mem_filter, Bool.and_eq_true, beq_iff_eq] at hx hy
+    apply hab
+    rw [← hx.2.1, ← hy.2.1, hxy]
+
+theorem nodup_of_tokNodup {pit : List Entry} (h : (pit.map (·.token)).Nodup) : pit.Nodup :=
+  List.Pairwise.of_map (·.token) (fun a b hab heq => hab (by rw [heq])) h
+
+theorem matchData_nodup {s : St} (h : WF s) (d : Data) : (matchData s.pit d).Nodup := by
+  unfold matchData
+  split
+  · cases s.pit.find? _ <;> simp
+  · exact matchByName_nodup (nodup_of_tokNodup h.tokNodup) _
+
+theorem mem_matchData_iff {s : St} (h : WF s) (d : Data) (e : Entry) :
+    e ∈ matchData s.pit d ↔ e ∈ s.pit ∧ satisfies d e = true := by
+  constructor
+  · exact mem_matchData
+  · rintro ⟨he, hs⟩
+    obtain ⟨e0, he0, ht⟩ := matchData_complete he hs
+    have := eq_of_token_eq h.tokNodup (mem_matchData he0).1 he ht
+    rw [← this]; exact he0
+
+theorem filter_filterMap_comm {α β : Type} (h : α → Option β) (p : β → Bool) (q : α → Bool)
+    (hpq : ∀ a b, h a = some b → p b = q a) (l : List α) :
+    (l.filterMap h).filter p = (l.filter q).filterMap h := by
+  induction l with
+  | nil => rfl
+  | cons a t ih =>
+    cases ha : h a with
+    | none =>
+      rw [List.filterMap_cons_none ha]
+      by_cases hq : q a = true
+      · rw [List.filter_cons_of_pos hq, List.filterMap_cons_none ha]; exact ih
+      · rw [List.filter_cons_of_neg hq]; exact ih
+    | some b =>
+      rw [List.filterMap_cons_some ha]
+      have := hpq a b ha
+      by_cases hq : q a = true
+      · rw [List.filter_cons_of_pos hq, List.filterMap_cons_some ha, List.filter_cons_of_pos (by rw [this]; exact hq), ih]
+      · rw [List.filter_cons_of_neg hq, List.filter_cons_of_neg (by rw [this]; exact hq)]; exact ih
+
+theorem dataSends_filter_face (faces : List Face) (name : Name) (content : Nat) (l : List (FaceId × Bytes)) (g : FaceId) :
+    (dataSends faces name content l).filter (·.face == g) = dataSends faces name content (l.filter (·.1 == g)) := by
+  unfold dataSends
+  apply filter_filterMap_comm
+  intro t b hb
+  cases hf : faceOf faces t.1 with
+  | none => simp [hf] at hb
+  | some fc =>
+    simp only [hf] at hb
+    split at hb
+    · simp at hb
+    · simp at hb; subst hb; rfl
+
+theorem onData_sends_filter (s : St) (f : FaceId) (d : Data) (fc : Face)
+    (hf : faceOf s.faces f = some fc) (hacc : (!fc.isLocal && isLocalhost d.name) = false) (g : FaceId) (hg : g ≠ f) :
+    (onData s f d).2.filter (·.face == g) =
+      (matchData s.pit d).flatMap fun e =>
+        dataSends s.faces d.name d.content ((e.inRecs.filter (·.face == g)).map fun r => (r.face, r.tok)) := by
+  unfold onData
+  simp only [hf, hacc, Bool.false_eq_true, if_false]
+  have hpit : (if s.csAdmit = true then csInsert s d else s).pit = s.pit := by split <;> simp
+  have hfaces : (if s.csAdmit = true then csInsert s d else s).faces = s.faces := by split <;> simp
+  rw [hpit]
+  have hmap : ∀ (l : List InRec), (l.map fun r => (r.face, r.tok)).filter (·.1 == g) =
+      (l.filter (·.face == g)).map fun r => (r.face, r.tok) := by
+    intro l; rw [List.filter_map]; rfl
+  split
+  · rename_i hm; simp [hm]
+  · rename_i e hm
+    simp only [hm, hfaces, List.flatMap_cons, List.flatMap_nil, List.append_nil]
+    rw [dataSends_filter_face, hmap]
+  · rename_i e0 rest hm
+    simp only [hfaces]
+    rw [List.filter_flatMap]
+    congr 1
+    funext e
+    rw [dataSends_filter_face, hmap, List.filter_filter]
+    congr 2
+    apply List.filter_congr
+    intro r _
+    by_cases hr : r.face = g
+    · simp [hr, hg]
+    · simp [hr]
+
+theorem inRecs_face_le_one {l : List InRec} (h : (l.map (·.face)).Nodup) (g : FaceId) :
+    (l.filter (·.face == g)).length ≤ 1 := by
+  induction l with
+  | nil => simp
+  | cons x t ih =>
+    simp only [List.map_cons, List.nodup_cons] at h
+    simp only [List.filter_cons]
+    split
+    · rename_i hx
+      have hx' : x.face = g := by simpa using hx
+      have : t.filter (·.face == g) = [] := by
+        rw [List.filter_eq_nil_iff]
+        intro y hy hyg
+        exact h.1 (by rw [hx', ← (by simpa using hyg : y.face = g)]; exact List.mem_map_of_mem hy)
+      simp [this]
+    · exact ih h.2
+
 end Ndn.Fw
